@@ -24,9 +24,9 @@ TECHNIQUE = (
 RULE = (
     "case = (150-700 rows, spectrum multiplicities, noise features, data seed, row permutation seed, max_iter 1-10, "
     "estimator interface decision_function / predict_proba (n,2) / predict_proba (n,1), optional GridSearchCV wrapper, optional explicit direction, train_fdr, feature-column "
-    "permutation of the prediction set, optional duplicated rows producing score ties). Each case trains 6 times "
+    "permutation of the prediction set, optional duplicated rows producing score ties, optionally two feature names that differ only in letter case). Each case trains 7 times "
     "(identity/permuted rows x shuffle on/off, permuted rows keeping their index labels with 1/0 integer labels, explicit "
-    "feature list in another order than the table). Non-trivial: max_iter>=2 and the row permutation is not the identity. "
+    "feature list in another order than the table, a dataset object that was fitted before at a neighbouring training FDR). Non-trivial: max_iter>=2 and the row permutation is not the identity. "
     "Distinct = distinct canonical JSON."
 )
 ASSUMPTIONS = [
@@ -60,6 +60,8 @@ def _case(draw, tier):
         "discrete": draw(st.sampled_from([False, False, True])),
         "direction": draw(st.sampled_from([None, None, None, "f0", "f0", "f1"])),
         "search": draw(st.sampled_from([False, False, True])),
+        # feature names that differ only in letter case (Sp / SP), as search engines do produce them
+        "casenames": draw(st.sampled_from([False, False, True])),
     }
 
 
@@ -73,7 +75,7 @@ def _accepted_set(vals, tg, thr, desc=True):
     return {i for i, l in enumerate(lab) if l == 1}, amb
 
 
-def _train(case, df, meta, order, shuffle, probe, probe2, tmp, tag, keep_index=False, int_labels=False, featlist=None):
+def _train(case, df, meta, order, shuffle, probe, probe2, tmp, tag, keep_index=False, int_labels=False, featlist=None, prefit_fdr=None):
     import mokapot
 
     feats = featlist or meta["features"]
@@ -84,6 +86,19 @@ def _train(case, df, meta, order, shuffle, probe, probe2, tmp, tag, keep_index=F
         d = d.assign(Label=d["Label"].astype(int))  # 1/0 integers: documented to be coerced to booleans
     ds = mokapot.LinearPsmDataset(d, target_column="Label", spectrum_columns=meta["key_cols"], peptide_column="Peptide",
                                   protein_column="Proteins", feature_columns=feats, copy_data=True)
+    if prefit_fdr is not None:
+        # history: the same dataset object was fitted before at a neighbouring threshold (a threshold sweep)
+        pre_log = "c12_pre_" + uuid.uuid4().hex
+        recorder.new_log(pre_log)
+        try:
+            pre = mokapot.Model(recorder.Centroid(log=pre_log, iface=case["iface"]), scaler="as-is", train_fdr=prefit_fdr, max_iter=1,
+                                override=True, shuffle=shuffle, rng=case["model_rng"] + 1, direction=case.get("direction"))
+            try:
+                guarded(pre.fit, ds, allowed=[(RuntimeError, "No PSMs accepted at train_fdr|No PSMs found below|Model performs worse")], sig="Model.fit")
+            except Rejected:
+                pass
+        finally:
+            recorder.drop_log(pre_log)
     logname = "c12_" + uuid.uuid4().hex
     recorder.new_log(logname)
     try:
@@ -121,6 +136,11 @@ def check(case):
         for c in meta["features"]:
             if c != "rid":
                 df[c] = df[c].round(0)
+    if case.get("casenames"):
+        ren = {"f0": "Sp", "f1": "SP"}
+        df = df.rename(columns=ren)
+        meta = {**meta, "features": [ren.get(f, f) for f in meta["features"]]}
+        case = {**case, "direction": ren.get(case.get("direction"), case.get("direction"))}
     n = len(df)
     tg = meta["is_target"]
     feats = meta["features"]
@@ -147,7 +167,8 @@ def check(case):
         variants = (("id-shuf", ident, True, {}), ("perm-shuf", perm, True, {}), ("id-noshuf", ident, False, {}),
                     ("perm-noshuf", perm, False, {}),
                     ("perm-index-kept-int-labels", perm, True, {"keep_index": True, "int_labels": True}),
-                    ("feature-list-permuted", ident, True, {"featlist": featlist}))
+                    ("feature-list-permuted", ident, True, {"featlist": featlist}),
+                    ("refit-same-dataset", ident, True, {"prefit_fdr": round(thr, 2) + (0.004 if round(thr, 2) < thr else -0.004)}))
         for tag, order, shuffle, opts in variants:
             try:
                 events, preds, model = _train(case, df, meta, order, shuffle, probe, probe2, tmp, tag, **opts)
@@ -216,7 +237,7 @@ def check(case):
                 f"training stops with '{next(iter(failed.values()))[:70]}' although {best} targets are accepted at FDR {thr} "
                 f"under {'feature ' + case['direction'] if case.get('direction') else 'the best feature'}")
     if failed:
-        require(len(failed) == 6, "training-outcome-differs",
+        require(len(failed) == 7, "training-outcome-differs",
                 f"training succeeds for {sorted(results)} but fails for {failed}: the outcome depends on row order / the shuffle switch")
         raise Rejected(next(iter(failed.values())))
     # ---- metamorphic relations on the probe set -------------------------------------------
@@ -241,5 +262,7 @@ def check(case):
         classes.append("hyper-parameter-search")
     if feat_perm != feats:
         classes.append("features-permuted")
+    if case.get("casenames"):
+        classes.append("feature-names-differ-in-case-only")
     nontrivial = case["max_iter"] >= 2 and not np.array_equal(perm, ident)
     return {"nontrivial": nontrivial, "classes": classes, "counters": counters}
